@@ -27,6 +27,8 @@ func bigXZCases(seed uint64) []xzCase {
 		{ID: "big1", LC: 0, LP: 2, PB: 0, DictCap: 1 << 20, Check: "sha256", Matcher: 0, Family: "text", N: 2<<20 + 4097, Part: "random", Seed: seed + 2},
 		{ID: "big2", LC: 3, LP: 0, PB: 2, DictCap: 0, Check: "default", Matcher: 0, Family: "altseg", N: 3 << 20, Part: "edges", Seed: seed + 3},
 		{ID: "big3", LC: 4, LP: 0, PB: 4, DictCap: 4096, BufSize: 273, Check: "none", Matcher: 0, Family: "random", N: 300000, Part: "random", Seed: seed + 4},
+		// far match distances (8 MiB): the distance coder's high slots on the writer side
+		{ID: "big5", LC: 3, LP: 0, PB: 2, DictCap: 16 << 20, Check: "crc32", Matcher: 0, Family: "xgapx", N: 12 << 20, Part: "one", Seed: seed + 6},
 		{ID: "big4", LC: 3, LP: 0, PB: 2, DictCap: 0, Check: "default", Matcher: 1, Family: "text", N: 300000, Part: "one", Seed: seed + 5},
 	}
 }
